@@ -57,6 +57,8 @@ pub fn family() -> Vec<(String, Cfg, bool)> {
     add("syntax error in the second mode", &|c| c.modes[1].pats[0].pat = "b+(".into(), false);
     add("unsupported construct in a lookahead", &|c| c.modes[0].pats[0].la = Some((true, "^b".into())), false);
     add("unknown class", &|c| c.modes[0].pats[1].pat = "\\p{Foo}".into(), false);
+    v.push(("no modes at all".into(), Cfg { modes: vec![] }, true));
+    v.push(("one mode without patterns".into(), Cfg { modes: vec![CMode { name: "INITIAL".into(), pats: vec![], transitions: vec![] }] }, true));
     v.push(("unrelated".into(), Cfg::single(vec![CPat::new("c+", 0), CPat::new("[ab]", 1)]), true));
     // the add_patterns twin: SimpleScannerBuilder names the mode INITIAL and numbers token types
     v.push(("twin of add_patterns([\"a\",\"b\"])".into(), Cfg { modes: vec![CMode { name: "INITIAL".into(), pats: vec![CPat::new("a", 0), CPat::new("b", 1)], transitions: vec![] }] }, true));
@@ -92,8 +94,10 @@ fn behaviour(sc: &Scanner, ins: &[String]) -> Behaviour {
     Behaviour {
         dump: normalise(sc.verif_dump()),
         names: (0..4).map(|i| sc.mode_name(i).map(|s| s.to_string())).collect(),
+        // a scanner without any mode cannot scan (unspecified); it is compared by its names only
         streams: ins
             .iter()
+            .filter(|_| sc.mode_name(0).is_some())
             .map(|i| {
                 let mut it = sc.find_iter(i);
                 let mut v = vec![];
@@ -264,7 +268,8 @@ pub fn run(tier: Tier) -> ! {
             other => viol.add("", || Violation { key: String::new(), summary: format!("add_patterns build failed: {other:?}").chars().take(300).collect(), replay: json!({"calls": ["add_patterns([\"a\",\"b\"]).build()"]}) }),
         }
     }
-    cache_clear();
+    // (after a panic inside the lock the cache is poisoned and the hook itself panics)
+    let _ = catch(cache_clear);
     let n_dis = viol.total();
     viol.flush(&mut run);
     let mut cov = Map::new();
